@@ -85,6 +85,7 @@ type c16Env struct {
 	e2eBad  []string
 	hung    bool
 	seq     int
+	own     c15OwnAnswers
 }
 
 func c16NewEnv() *c16Env {
@@ -152,7 +153,8 @@ func (e *c16Env) setup(in c16In, r *rand.Rand) (*c16Hist, error) {
 	}
 	h.dnsSolv = &certmagic.DNS01Solver{DNSManager: certmagic.DNSManager{DNSProvider: h.provider, PropagationTimeout: -1, Resolvers: []string{"127.0.0.1:1"}}}
 	issD := certmagic.NewACMEIssuer(e.cfg, certmagic.ACMEIssuer{CA: c16CA, Email: "x@example.com", Agreed: true, Logger: zap.NewNop(), DNS01Solver: h.dnsSolv})
-	h.ik = issD.IssuerKey()
+	h.ik = c15IssuerKeyOf(c16CA) // independent of the code under test (c15_indep.go)
+	e.own.issuerKey(issD, c16CA)
 	dnsStack, err := certmagic.VerifChallengeSolvers(issD, false)
 	if err != nil {
 		return nil, err
@@ -249,7 +251,7 @@ func (e *c16Env) observe(h *c16Hist, err error) c16Snap {
 	}
 	keys := map[string]bool{}
 	for _, c := range h.chals {
-		keys[certmagic.VerifChallengeKey(c)] = true
+		keys[c15KeyOf(c)] = true
 	}
 	for _, m := range certmagic.VerifActiveChallenges() {
 		if keys[m.Key] {
